@@ -45,6 +45,8 @@ Section TypingEqns.
       match args with ECons a ENil => wt_arg ext a | _ => false end
     else if ustr_eqb name tname_count || ustr_eqb name tname_value then
       match args with ECons a ENil => wt_nodes ext a | _ => false end
+    else if ext && ustr_eqb name tname_typeof then
+      match args with ECons a ENil => wt_nodes ext a | _ => false end
     else false.
   Proof. reflexivity. Qed.
   Lemma wt_member_func name args :
@@ -220,6 +222,8 @@ Section SpecEqns.
       end
     else if ustr_eqb name fname_value then
       match args with ECons a ENil => fn_value (q_nodes a root ctx cur key) | _ => None end
+    else if ustr_eqb name fname_typeof then
+      match args with ECons a ENil => fn_typeof (q_nodes a root ctx cur key) | _ => None end
     else None.
   Proof. reflexivity. Qed.
 
